@@ -162,6 +162,13 @@ def verdict (w : World) (line : String) : World × String :=
           | none => false
         sawBetter && results.contains s!"T{i}:stored"
       | _ => false
-    if wrong then (w1, "FAIL a local PutValue went on although a better value was already stored") else (w1, "ok")
+    -- a PUT_VALUE whose record is keyed differently from the request must be turned down, whatever else happens
+    let miskeyedAccepted := (List.range ops.length).any fun i =>
+      match ops[i]? with
+      | some (.hput mk rec) => mk != rec.ekey && (results.contains s!"T{i}:ok" || results.contains s!"T{i}:stored")
+      | _ => false
+    if wrong then (w1, "FAIL a local PutValue went on although a better value was already stored")
+    else if miskeyedAccepted then (w1, "FAIL a PUT_VALUE carrying a record keyed differently from the request was accepted")
+    else (w1, "ok")
 
 end KadDHT.Driver.C05
